@@ -401,3 +401,5 @@ func gabiHashCommit(v []*big.Int) *big.Int {
 	}
 	return c
 }
+
+func jsonNumber(s string) json.Number { return json.Number(s) }
